@@ -65,6 +65,12 @@ Theorem c07_fires_ok_model : forall (CC : Type) (cci : cc_iface CC) cfg ops (s :
   forallb (c07_fires_ok cfg) (ftrace cci s ops) = true.
 Proof. exact (@c07_fires_ok_trace). Qed.
 
+(* window update: after a completed poll the window last advertised and the current one are on the same
+   side of zero (the update went out in that poll, no clock advance), on every model trace *)
+Theorem c07_window_update_ok_model : forall (CC : Type) (cci : cc_iface CC) cfg ops (s : vsock CC),
+  1 <= mss (v_ss s) -> forallb (c07_window_update_ok cfg) (ftrace cci s ops) = true.
+Proof. exact (@c07_window_update_ok_trace). Qed.
+
 Print Assumptions c07_mss_pos_new.
 Print Assumptions c07_mss_pos_step.
 Print Assumptions c07_no_pending_immediate_ack.
@@ -74,3 +80,4 @@ Print Assumptions c07_delayed_ack_fires_poll.
 Print Assumptions c07_immediate_ok_model.
 Print Assumptions c07_delayed_ok_model.
 Print Assumptions c07_fires_ok_model.
+Print Assumptions c07_window_update_ok_model.
